@@ -657,8 +657,16 @@ impl<R: io::Read + io::Seek> IndexedReader<R> {
     fn seek_to(&mut self, idx: &IndexRecord, start: u64) -> io::Result<u64> {
         assert!(start <= idx.len);
 
-        let line_offset = start % idx.line_bases;
-        let line_start = start / idx.line_bases * idx.line_bytes;
+        // A record without any bases has no lines; samtools faidx writes 0 for both of its
+        // line widths.
+        let (line_offset, line_start) = if idx.line_bases == 0 {
+            (0, 0)
+        } else {
+            (
+                start % idx.line_bases,
+                start / idx.line_bases * idx.line_bytes,
+            )
+        };
         let offset = idx.offset + line_start + line_offset;
         self.reader.seek(io::SeekFrom::Start(offset))?;
 
